@@ -144,3 +144,16 @@ package codegen
 //@   ghostcall walkStmts visitedBlock
 //@   traverse stepmark 1 stmts ir.Block visitedBlock($)
 //
+//
+// ---- deterministic ordering (C12, C17): resources are numbered in (group, binding)
+// order; the comparator must separate any two different bindings.
+//
+//@ func (*Writer).computeResourceMap
+//@   mode bv
+//@   tags C12 C17
+//@   order sort.Slice#1 [by-group-binding] key x :: x.binding
+//
+//@ func (*Writer).collectOobLocalTypes
+//@   mode bv
+//@   tags C12
+//@   order sort.Slice#1 [by-handle] key x :: x
